@@ -1,5 +1,6 @@
 import ThriftVerif.Gen.DeepEqLemmas
 import ThriftVerif.Gen.DeepEqSymm
+import ThriftVerif.Gen.DeepEqRepaired
 import ThriftVerif.Generated.C18
 /-
   C18 — generated DeepEqual is structural equality (DESIGN.md §5.18).
@@ -19,7 +20,8 @@ import ThriftVerif.Generated.C18
     * `deep_equal_iff_fails_missing_key`      map<i32,i32>  {1:0} vs {2:0}            → true   (valEq: false)
     * `deep_equal_iff_fails_struct_key`       map<K,i32>    {K{1}:7} vs its deep copy → false  (valEq: true)
     * `deep_equal_iff_fails_optional_binary`  optional binary: unset vs empty         → true   (valEq: false)
-  `deep_equal_iff_partial` is the statement on the pairs outside these shapes (hypothesis `aligned`, decidable).
+  `deep_equal_iff_partial` is the statement on the pairs outside these shapes (hypothesis `aligned`, decidable);
+  `deep_equal_iff_repaired` is the statement for the template after the planned repair of the first defect.
 -/
 namespace Props.C18
 open Gen Gen.DeepEq
@@ -55,6 +57,18 @@ theorem deep_equal_iff_fails_struct_key :
 theorem deep_equal_iff_fails_optional_binary :
     deepEqual facts Witness.P (.struct 3) Witness.unsetBin Witness.emptyBin = .ok true ∧
     valEq Witness.P (.struct 3) Witness.unsetBin Witness.emptyBin = false := by decide
+
+/-- THE REPAIRED TEMPLATE (`_src, ok := src[k]; if !ok { return false }`, i.e. any `Facts` with `commaOk`): DeepEqual is
+structural equality on EVERY well-shaped pair — no condition on the key sets (a pigeonhole argument: same size and every
+key of the one found in the other give the same key set). `shaped` only asks for Go-typed values (base slots typed, map
+keys pairwise different), empty struct-keyed maps and no unset-vs-set optional binary: defects 2 and 3 are not repaired by it. -/
+theorem deep_equal_iff_repaired (F : Facts) (hL : F.lenTest = true) (hC : F.commaOk = true) (P : Prog) (ty : Ty) (a b : GoVal)
+    (h : shaped P ty a b = true) : deepEqual F P ty a b = .ok (valEq P ty a b) :=
+  deepEqual_eq_valEq_rep F hL hC P a ty b h
+
+-- satisfiable by the very pair that fails on the current tree; the repaired template answers false on it
+example : shaped Witness.P (.struct 1) Witness.m10 Witness.m20 = true ∧
+    deepEqual { lenTest := true, commaOk := true } Witness.P (.struct 1) Witness.m10 Witness.m20 = .ok false := by decide
 
 /-- the specification itself is symmetric on values a Go program can hold (`wf`: shapes follow the types, the keys
 of every map with base-typed keys are pairwise different) -/
